@@ -2,82 +2,9 @@
 // (differential oracle over operation histories; rapidcheck).
 #include <rapidcheck.h>
 #include "vops.h"
+#include "vcops.h"
 using namespace v; using namespace vo;
 template <typename T> static rc::Gen<T> UNI(T lo, T hi) { return rc::gen::resize(100, rc::gen::inRange<T>(lo, hi)); }
-
-// ------------------------------------------------------------------ checker ops
-enum { C_SETKEY, C_CLAIM_SET, C_CLAIM_DEL, C_LEEWAY, C_SETCB, C_CLOCK, C_VERIFY, C_ERRCLR, C_N };
-static const char *CN[] = {"setkey", "claim_set", "claim_del", "time_leeway", "setcb", "clock", "verify", "error_clear"};
-struct COp { int k = 0, a = 0, b = 0; };
-enum { VCB_NONE, VCB_SELECT, VCB_FAIL, VCB_MUTATE, VCB_N };
-static const char *VCBN[] = {"none", "selects-key+alg", "fails", "mutates-token"};
-struct VCtx { int kind; };
-static int checker_cb(jwt_t *jwt, jwt_config_t *c) {
-  VCtx *x = (VCtx *)c->ctx;
-  switch (x->kind) {
-  case VCB_SELECT: c->key = keytab()[1].lk->item; c->alg = JWT_ALG_HS256; return 0;
-  case VCB_FAIL: return 1;
-  case VCB_MUTATE: { jwt_value_t v = val_str("zz", "1", 1); jwt_claim_set(jwt, &v); jwt_header_del(jwt, "typ"); return 0; }
-  }
-  return 0;
-}
-static std::vector<std::pair<std::string, std::string>> TOKENS;  // (class, token); empty class "NULL" = NULL pointer
-static void init_tokens() {
-  Pool &p = pool(); const KeySpec &oct = p.get("oct64"), &ec = p.get("ec_p256");
-  auto H = [](const char *a) { return std::string("{\"alg\":\"") + a + "\",\"typ\":\"JWT\"}"; };
-  std::string good = "{\"iss\":\"issuer\",\"sub\":\"s\",\"exp\":1800000000,\"nbf\":1600000000}";
-  TOKENS.push_back({"valid-hs256", ref_token(oct, JWT_ALG_HS256, H("HS256"), good)});
-  TOKENS.push_back({"valid-es256", ref_token(ec, JWT_ALG_ES256, H("ES256"), good)});
-  { std::string t = ref_token(oct, JWT_ALG_HS256, H("HS256"), good); t[t.size() - 2] = t[t.size() - 2] == 'A' ? 'B' : 'A'; TOKENS.push_back({"bad-signature", t}); }
-  TOKENS.push_back({"expired", ref_token(oct, JWT_ALG_HS256, H("HS256"), "{\"iss\":\"issuer\",\"exp\":5}")});
-  TOKENS.push_back({"nbf-future", ref_token(oct, JWT_ALG_HS256, H("HS256"), "{\"iss\":\"issuer\",\"nbf\":4000000000}")});
-  TOKENS.push_back({"wrong-iss", ref_token(oct, JWT_ALG_HS256, H("HS256"), "{\"iss\":\"other\"}")});
-  TOKENS.push_back({"no-dots", "eyJhbGciOiJIUzI1NiJ9"});
-  TOKENS.push_back({"one-dot", "eyJhbGciOiJIUzI1NiJ9.e30"});
-  TOKENS.push_back({"header-bad-base64", "!!!!.e30.AAAA"});
-  TOKENS.push_back({"header-not-json", b64u_enc("not json") + ".e30.AAAA"});
-  TOKENS.push_back({"missing-alg", b64u_enc("{\"typ\":\"JWT\"}") + ".e30."});
-  TOKENS.push_back({"unknown-alg", b64u_enc("{\"alg\":\"XS999\"}") + ".e30.AAAA"});
-  TOKENS.push_back({"none-with-signature", b64u_enc("{\"alg\":\"none\"}") + ".e30.AAAA"});
-  TOKENS.push_back({"payload-not-json", b64u_enc(H("HS256")) + "." + b64u_enc("{oops") + ".AAAA"});
-  TOKENS.push_back({"valid-none", b64u_enc("{\"alg\":\"none\"}") + "." + b64u_enc(good) + "."});
-  TOKENS.push_back({"NULL", ""});
-  TOKENS.push_back({"empty", ""});
-  TOKENS.push_back({"valid-hs256-noclaims", ref_token(oct, JWT_ALG_HS256, H("HS256"), "{}")});
-}
-static const int CKEYS[] = {-1, 0, 1, 3, 4, 2, 5};
-static const jwt_alg_t CALGS[] = {JWT_ALG_NONE, JWT_ALG_HS256, JWT_ALG_ES256, JWT_ALG_HS512};
-static const long CLEE[] = {-1, 0, 5, 1L << 33};
-
-struct CExec { jwt_checker_t *c; VCtx cx{VCB_NONE}; CExec() { c = jwt_checker_new(); } ~CExec() { jwt_checker_free(c); } };
-static std::string cop_str(const COp &o) {
-  std::string s = CN[o.k % C_N]; s += "(";
-  switch (o.k % C_N) {
-  case C_SETKEY: { int k = CKEYS[o.b % 7]; jwt_alg_t a = CALGS[o.a % 4]; s += std::string(a == JWT_ALG_NONE ? "none" : jwt_alg_str(a)) + "," + (k < 0 ? "NULL" : keytab()[k].label); break; }
-  case C_CLAIM_SET: s += std::string(o.a % 3 == 0 ? "iss" : o.a % 3 == 1 ? "sub" : "exp!") + "," + (o.b & 1 ? "issuer" : "other"); break;
-  case C_CLAIM_DEL: s += o.a % 2 ? "sub" : "iss"; break;
-  case C_LEEWAY: s += std::string(o.a & 1 ? "nbf" : "exp") + "," + std::to_string(CLEE[o.b % 4]); break;
-  case C_SETCB: s += VCBN[o.a % VCB_N]; break;
-  case C_CLOCK: s += std::to_string(CLK[o.a % 5]); break;
-  case C_VERIFY: s += TOKENS[o.a % TOKENS.size()].first; break;
-  }
-  return s + ")";
-}
-struct VRes { int ret, err; std::string msg; };
-static VRes capply(CExec &x, const COp &o, bool *is_verify = nullptr) {
-  VRes r{0, 0, ""}; jwt_checker_t *c = x.c;
-  switch (o.k % C_N) {
-  case C_SETKEY: { int k = CKEYS[o.b % 7]; r.ret = jwt_checker_setkey(c, CALGS[o.a % 4], k < 0 ? nullptr : keytab()[k].lk->item); break; }
-  case C_CLAIM_SET: r.ret = jwt_checker_claim_set(c, o.a % 3 == 0 ? JWT_CLAIM_ISS : o.a % 3 == 1 ? JWT_CLAIM_SUB : JWT_CLAIM_EXP, o.b & 1 ? "issuer" : "other"); break;
-  case C_CLAIM_DEL: r.ret = jwt_checker_claim_del(c, o.a % 2 ? JWT_CLAIM_SUB : JWT_CLAIM_ISS); break;
-  case C_LEEWAY: r.ret = jwt_checker_time_leeway(c, o.a & 1 ? JWT_CLAIM_NBF : JWT_CLAIM_EXP, (time_t)CLEE[o.b % 4]); break;
-  case C_SETCB: { int kind = o.a % VCB_N; x.cx.kind = kind; r.ret = jwt_checker_setcb(c, kind == VCB_NONE ? nullptr : checker_cb, kind == VCB_NONE ? nullptr : &x.cx); break; }
-  case C_CLOCK: set_now((time_t)CLK[o.a % 5]); break;
-  case C_ERRCLR: jwt_checker_error_clear(c); break;
-  case C_VERIFY: { auto &t = TOKENS[o.a % TOKENS.size()]; if (is_verify) *is_verify = true; r.ret = jwt_checker_verify(c, t.first == "NULL" ? nullptr : t.second.c_str()); r.err = jwt_checker_error(c); r.msg = jwt_checker_error_msg(c) ? jwt_checker_error_msg(c) : ""; break; }
-  }
-  return r;
-}
 
 static std::string TRACE; static int CUR_KIND = 0, CUR_PROV = 0; static const std::vector<COp> *CURC = nullptr; static const std::vector<BOp> *CURB = nullptr;
 struct HStats { int calls = 0, after_different_class = 0, msg_differs = 0; };
